@@ -116,8 +116,7 @@ def step (s : RState τ α) : Line τ α → Except Err (RState τ α)
       if s.since > 0 then (if s.cur.mats = [] then [("Default", s.since)] else setLast s.cur.mats s.since)
       else s.cur.mats
     .ok { s with since := 0, inEffect := some name, cur := { s.cur with mats := mats1 ++ [(name, 0)] } }
-  | .g name =>
-    if name = "" then .error .err else
+  | .g name =>                       -- a bare `g` is the default group, name ""
     if s.cur.tris ≠ [] then
       let mats1 := if s.since > 0 ∧ s.cur.mats ≠ [] then setLast s.cur.mats s.since else s.cur.mats
       .ok { s with since := 0, done := s.done ++ [{ s.cur with mats := mats1 }], cur := { name := name } }
@@ -270,10 +269,15 @@ def flatTris : List (Nat × Nat × Nat) → List Nat
 
 def optOfList {β : Type} (l : List β) : Option (List β) := if l = [] then none else some l
 
-/-- `objMeshReading.toMesh`: `SetFloat3Attribute` drops an empty array -/
+/-- an attribute array is kept only if it is non-empty and complete (one entry per vertex) -/
+def keepIfComplete {β : Type} (n : Nat) (l : List β) : Option (List β) :=
+  if l ≠ [] ∧ l.length = n then some l else none
+
+/-- `objMeshReading.toMesh`: `SetFloat3Attribute` drops an empty position array; normals / texture
+    coordinates are kept only when every corner of the group supplied them -/
 def toMesh {τ α : Type} (g : Group τ α) : String × Mesh α :=
-  (g.name, ⟨flatTris g.tris, optOfList g.verts, optOfList g.uvs, optOfList g.normals,
-            g.mats.map fun (n, c) => (some n, c)⟩)
+  (g.name, ⟨flatTris g.tris, optOfList g.verts, keepIfComplete g.verts.length g.uvs,
+            keepIfComplete g.verts.length g.normals, g.mats.map fun (n, c) => (some n, c)⟩)
 
 def faceCount {τ α : Type} (ls : List (Line τ α)) : Nat :=
   (ls.filter fun l => match l with | .f _ _ _ => true | _ => false).length
@@ -353,43 +357,49 @@ def resolveCorner (pv pn : List (V3 α)) (pt : List (V2 α)) (c : Corner) : Opti
       | some t, some n => some ⟨p, some t, some n⟩
       | _, _ => none
 
-def resolveFaces {τ : Type} (pc : τ → Except Err Corner) :
-    List (V3 α) → List (V3 α) → List (V2 α) → List (Line τ α) → List (Option (RCorner α × RCorner α × RCorner α))
-  | _, _, _, [] => []
-  | pv, pn, pt, .v p :: ls => resolveFaces pc (pv ++ [p]) pn pt ls
-  | pv, pn, pt, .vn p :: ls => resolveFaces pc pv (pn ++ [p]) pt ls
-  | pv, pn, pt, .vt p :: ls => resolveFaces pc pv pn (pt ++ [p]) ls
-  | pv, pn, pt, .f a b c :: ls =>
-    (match pc a, pc b, pc c with
+abbrev RFace (α : Type) := RCorner α × RCorner α × RCorner α
+
+/-- the faces of a text, resolved and split at the `g` lines: one list per stretch between two `g` lines
+    (`none` = a face with an unresolvable corner).  Independent of the reader's state machine. -/
+def resolveGroups {τ : Type} (pc : τ → Except Err Corner) :
+    List (V3 α) → List (V3 α) → List (V2 α) → List (Option (RFace α)) → List (Line τ α) → List (List (Option (RFace α)))
+  | _, _, _, cur, [] => [cur]
+  | pv, pn, pt, cur, .v p :: ls => resolveGroups pc (pv ++ [p]) pn pt cur ls
+  | pv, pn, pt, cur, .vn p :: ls => resolveGroups pc pv (pn ++ [p]) pt cur ls
+  | pv, pn, pt, cur, .vt p :: ls => resolveGroups pc pv pn (pt ++ [p]) cur ls
+  | pv, pn, pt, cur, .g _ :: ls => cur :: resolveGroups pc pv pn pt [] ls
+  | pv, pn, pt, cur, .f a b c :: ls =>
+    resolveGroups pc pv pn pt (cur ++ [match pc a, pc b, pc c with
      | .ok a, .ok b, .ok c =>
-       match resolveCorner pv pn pt a, resolveCorner pv pn pt b, resolveCorner pv pn pt c with
-       | some a, some b, some c => some (a, b, c)
-       | _, _, _ => none
-     | _, _, _ => none) :: resolveFaces pc pv pn pt ls
-  | pv, pn, pt, _ :: ls => resolveFaces pc pv pn pt ls
+       (match resolveCorner pv pn pt a, resolveCorner pv pn pt b, resolveCorner pv pn pt c with
+        | some a, some b, some c => some (a, b, c)
+        | _, _, _ => none)
+     | _, _, _ => none]) ls
+  | pv, pn, pt, cur, _ :: ls => resolveGroups pc pv pn pt cur ls
 
-/-- shape of a corner: which slots are present -/
-def Corner.shape (c : Corner) : Bool × Bool := ((slot c.vt).isSome, (slot c.vn).isSome)
+/-- what a group keeps when saved: texture coordinates only if EVERY corner of the group has one, normals
+    likewise (an incomplete attribute cannot be lined up with the vertices and is dropped on load) -/
+def keepComplete (fs : List (RFace α)) : List (RFace α) :=
+  let cs := fs.flatMap fun (a, b, c) => [a, b, c]
+  let kt := cs.all fun c => c.t.isSome
+  let kn := cs.all fun c => c.n.isSome
+  let f := fun (c : RCorner α) => (⟨c.p, if kt then c.t else none, if kn then c.n else none⟩ : RCorner α)
+  fs.map fun (a, b, c) => (f a, f b, f c)
 
-/-- all face corners of the group have one shape (then `normals` / `uvs` are aligned with `verts`) -/
-def Group.uniform {τ : Type} (pc : τ → Except Err Corner) (g : Group τ α) : Bool :=
-  let shapes := g.ftoks.flatMap fun (a, b, c) => [a, b, c].map fun t => match pc t with
-    | .ok c => some c.shape
-    | .error _ => none
-  match shapes with
-  | [] => true
-  | s :: r => r.all (· == s)
+def allSome {β : Type} : List (Option β) → Option (List β)
+  | [] => some []
+  | none :: _ => none
+  | some a :: r => (allSome r).map (a :: ·)
 
-/-- **C05 re-save**: the saved text `t'` has exactly the faces of `t` — as many, in the same order, each
-    corner resolving to the same position / texture coordinate / normal (scalars through `rt`) -/
-def Resaves {τ τ' : Type} (pc : τ → Except Err Corner) (pc' : τ' → Except Err Corner) (rt : α → α)
+/-- **C05 re-save**: the saved text `t'` has exactly the faces of `t` — as many, in the same order, every
+    corner at the same position, with the same texture coordinate / normal wherever the whole group of
+    `t` has them (for a group in which every corner has the same shape: exactly the same corners) -/
+def Resaves {τ τ' : Type} (pc : τ → Except Err Corner) (pc' : τ' → Except Err Corner)
     (t : List (Line τ α)) (t' : List (Line τ' α)) : Bool :=
-  let a := resolveFaces pc [] [] [] t
-  let b := resolveFaces pc' [] [] [] t'
-  faceCount t' == faceCount t && a.all Option.isSome &&
-  b == a.map fun o => o.map fun (x, y, z) =>
-    let f (c : RCorner α) : RCorner α := ⟨c.p.map rt, c.t.map (V2.map rt), c.n.map (V3.map rt)⟩
-    (f x, f y, f z)
+  faceCount t' == faceCount t &&
+  match ((resolveGroups pc [] [] [] [] t).mapM allSome), allSome (resolveGroups pc' [] [] [] [] t').flatten with
+  | some gs, some fs' => fs' == (gs.map keepComplete).flatten
+  | _, _ => false
 
 end spec
 
